@@ -8,7 +8,7 @@ usage: seeded_rerun.py [-j N] [name-substring ...]
 import json, os, subprocess, sys, shutil, glob, time, concurrent.futures as cf
 
 ENV = dict(os.environ, GOFLAGS="-mod=mod", GOPROXY="off", GOSUMDB="off", GOTOOLCHAIN="local")
-VERIF = "/verif"
+VERIF = os.environ.get("VERIF_DIR", "/verif")
 ROOT = "/tmp/seedrr"
 
 
